@@ -123,4 +123,17 @@ def run(ctx):
         "BalancedParens rebuilt with from_words/new is compared with the original query by query inside the harness ('same' events), not against a TLA+ definition (that is C04's subject)",
     ]
 
-# MUTANTS: (filled in after mutation testing, see bottom of file)
+# MUTANTS (scratch worktree of /repo WITH hooks/FIX-C31-unaligned-bytes.patch applied, known findings reduced
+# to the two borrowed forms; quick tier; "caught" = VIOLATION + exit 1):
+#  0 fixed tree, no mutation                                                exit 0, only the two borrowed-form KNOWN-FINDINGs
+#  1 binary.rs bytes_to_words_vec decodes with from_be_bytes                caught (b2w words differ)
+#  2 binary.rs bytes_to_words_vec skips the first chunk                     caught (first run crashed the harness on the rebuilt
+#    constructors' panic -> constructors now run under guarded(); re-run: VIOLATION)
+#  3 binary.rs try_bytes_to_words accepts len % 4 == 0                      caught (b2w: panic where None is required)
+#  4 light.rs from_parts builds ib_rank from the BP words                   caught (first run: Trace_JsonDoc crashed on a panic
+#    event without fields -> spec made total (`e.r # -2` first); re-run: see final report)
+#  5 light.rs from_parts passes bp_len - 1                                  not caught: EQUIVALENT through the JsonCursor API (only
+#    the root's own close is dropped; no cursor query reads it)
+#  6 standard.rs SemiIndex::from_bytes swaps ib and bp                      caught (rebuilt-semi: root cursor invalid)
+#  7 binary.rs cast_slice reintroduced in bytes_to_words_vec (= today's /repo) caught (b2w misaligned: panic)
+#  8 light.rs from_parts stores ib_len - 1                                  see final report
